@@ -27,6 +27,8 @@ import (
 //vp:all stub github.com/bolkedebruin/rdpgw/shared/auth.NewAuthenticateClient = vpNewAuthClient
 //vp:all stub (*net/http.Request).BasicAuth = vpBasicAuth
 //vp:all stub time.Now = vpNow
+//vp:all stub time.Until = vpUntil
+//vp:all stub time.Since = vpSince
 //vp:all stub (*net/url.URL).Query = vpURLQuery
 
 func vpmUUIDNew() uuid.UUID { return uuid.UUID{} }
@@ -95,6 +97,8 @@ func vpResetWeb() {
 	vpAuthRes, vpAuthErr, vpNtlmRes, vpNtlmErr = nil, nil, nil, nil
 	vpBasicUser, vpBasicPass, vpBasicOK = "", "", false
 	vpQueryVals = nil
+	vpLastSec, vpLastNow = 0, time.Time{}
+	vpDurKnown = false
 }
 
 func vpGrpcDial(target string, opts ...grpc.DialOption) (*grpc.ClientConn, error) {
@@ -128,11 +132,41 @@ func vpNewAuthClient(cc grpc.ClientConnInterface) auth.AuthenticateClient { retu
 func vpBasicAuth(r *http.Request) (string, string, bool) { return vpBasicUser, vpBasicPass, vpBasicOK }
 func vpURLQuery(u *url.URL) url.Values                  { return vpQueryVals }
 
+// time.Until / time.Since on the harness clock, in whole seconds (the clock has no finer grain). The
+// seconds are remembered beside the Duration so that the models which consume the Duration (go-cache
+// lifetimes) need not divide a symbolic value by 1e9 — a kernel no solver here decides.
+var vpDurKnown bool
+var vpDurLast time.Duration
+var vpDurLastSec int64
+
+func vpMkDur(sec int64) time.Duration {
+	vpDurKnown, vpDurLastSec = true, sec
+	vpDurLast = time.Duration(sec) * time.Second
+	return vpDurLast
+}
+func vpUntil(t time.Time) time.Duration { return vpMkDur(t.Unix() - vpNow().Unix()) }
+func vpSince(t time.Time) time.Duration { return vpMkDur(vpNow().Unix() - t.Unix()) }
+
+// vpDurSeconds: d in whole seconds.
+func vpDurSeconds(d time.Duration) int64 {
+	if vpDurKnown && d == vpDurLast {
+		return vpDurLastSec
+	}
+	return int64(d / time.Second)
+}
+
+// time.Now: arbitrary non-decreasing instants between 2001 and 2100.
+var vpLastNow time.Time
+var vpLastSec int64
+
 func vpNow() time.Time {
 	vpNowCalls++
 	s := int64(vpU64("now" + vpItoa(vpNowCalls)))
 	vpAssume(s >= 978307200 && s <= 4102444800)
-	return time.Unix(s, 0)
+	vpAssume(s >= vpLastSec)
+	vpLastSec = s
+	vpLastNow = time.Unix(s, 0)
+	return vpLastNow
 }
 
 func vpHeaderValues(w *vpRW, key string) []string { return w.hdr[key] }
